@@ -19,6 +19,7 @@ import (
 // the state a process kill at that point leaves behind.
 type Image struct {
 	Files map[string][]byte
+	Sums  map[string]string // per-file content hash
 	Label string
 	Hash  string
 	Tag   map[string]int // driver bookkeeping at capture time (acked, submitted, ...)
@@ -26,7 +27,7 @@ type Image struct {
 
 // CaptureDir reads the whole directory tree.
 func CaptureDir(dir, label string) *Image {
-	img := &Image{Files: map[string][]byte{}, Label: label, Tag: map[string]int{}}
+	img := &Image{Files: map[string][]byte{}, Sums: map[string]string{}, Label: label, Tag: map[string]int{}}
 	h := sha1.New()
 	var names []string
 	filepath.Walk(dir, func(p string, fi os.FileInfo, err error) error {
@@ -43,6 +44,8 @@ func CaptureDir(dir, label string) *Image {
 		}
 		rel, _ := filepath.Rel(dir, p)
 		img.Files[rel] = b
+		fh := sha1.Sum(b)
+		img.Sums[rel] = fmt.Sprintf("%x", fh[:8])
 		fmt.Fprintf(h, "%s:%d:", rel, len(b))
 		h.Write(b)
 	}
@@ -147,4 +150,19 @@ func firstRepoFrame(stk string) string {
 		}
 	}
 	return "?"
+}
+
+// KeyWithout is a content key of the image that ignores the listed files (used to share the
+// recovery result of damaged variants: once a file is absent / empty / garbage its original content
+// is irrelevant).
+func (im *Image) KeyWithout(ignore map[string]bool) string {
+	var parts []string
+	for rel, h := range im.Sums {
+		if !ignore[rel] {
+			parts = append(parts, rel+":"+h)
+		}
+	}
+	sort.Strings(parts)
+	h := sha1.Sum([]byte(strings.Join(parts, ";")))
+	return fmt.Sprintf("%x", h[:10])
 }
